@@ -3,7 +3,7 @@
 From Coq Require Import List NArith Bool Permutation.
 From SV Require Import Fmt.VpkDir Fmt.VpkDirProofs Fmt.VpkName Fmt.VpkNameSplit Fmt.VpkNameProofs SM.Vpk SM.VpkProofs.
 From SV Require Import Fmt.VpkArchName Fmt.VpkArchNameProofs SM.VpkRefine Fmt.VpkDirV2.
-From SV Require Import Fmt.VpkNullStr Fmt.VpkNullStrProofs SM.VpkNested SM.VpkNestedProofs SM.VpkApi SM.VpkApiProofs.
+From SV Require Import Fmt.VpkNullStr Fmt.VpkNullStrProofs SM.VpkNested SM.VpkNestedProofs SM.VpkApi SM.VpkApiProofs SM.VpkNestedMap SM.VpkNestedMapProofs.
 Import ListNotations.
 Open Scope N_scope.
 
@@ -316,3 +316,33 @@ Theorem c13_exit_tables_computed :
   exit_table_ok exit_table_pinned = true /\ exit_table_ok exit_table_always = false /\ exit_table_ok exit_table_never = false
   /\ mode_table_ok false true true = true.
 Proof. exact exit_tables_computed. Qed.
+
+(** ---- the nested dicts are a finite map (SM/VpkNestedMap.v; Gen/VpkNested_gen.v g_ins_ext / g_ins_dir / g_del_prog) ---- *)
+
+(** The three laws of a finite map for lookup as __getitem__ / __contains__ do it (first entry with the key at each of the three
+    levels), insertion as new_file does it and deletion as __delitem__ does it — for every tree (no well-formedness assumption), every
+    description of the two get-or-create steps of new_file accepted by [goc_ok] (the dict found is reused, a missing one is created and
+    stored) and every clean-up program accepted by [prog_safe]; both are instance obligations on what the translator reads from the
+    source. *)
+Theorem c13_nested_map_empty : forall k, nlookup [] k = None.
+Proof. exact nlookup_nil. Qed.
+
+Theorem c13_nested_map_lookup_after_new_file : forall g1 g2, goc_ok g1 = true -> goc_ok g2 = true -> forall t k i,
+  exists t', nins g1 g2 t k i = Some t' /\ forall k', nlookup t' k' = if key_eqb k' k then Some i else nlookup t k'.
+Proof. exact nlookup_nins. Qed.
+
+Theorem c13_nested_map_lookup_after_delete : forall prog, prog_safe prog = true -> forall t k,
+  match ndel prog t k with
+  | Some t' => forall k', nlookup t' k' = if key_eqb k' k then None else nlookup t k'
+  | None => nlookup t k = None
+  end.
+Proof. exact nlookup_ndel. Qed.
+
+(** A fresh extension dict on every new_file loses the other files of the extension; a new folder dict that is not stored loses the
+    file just added; both descriptions are rejected by [goc_ok]. *)
+Theorem c13_nested_insert_refuted :
+  goc_ok goc_pinned = true /\ goc_ok goc_always_new = false /\ goc_ok goc_forgets_store = false
+  /\ option_map (fun t => nlookup t ([116], [97], [120])) (nins goc_always_new goc_pinned ex_t2 ([116], [99], [122]) ex_info) = Some None
+  /\ option_map (fun t => nlookup t ([116], [97], [120])) (nins goc_pinned goc_pinned ex_t2 ([116], [99], [122]) ex_info) = Some (Some ex_info)
+  /\ option_map (fun t => nlookup t ([116], [99], [122])) (nins goc_pinned goc_forgets_store ex_t2 ([116], [99], [122]) ex_info) = Some None.
+Proof. exact goc_refuted. Qed.
